@@ -87,6 +87,10 @@ class LaunchMonitor(Monitor):
         for tk in self.plan["jobs"][j].get("tokens", []):
             self.ledger.get(tk["tok"], {}).pop(key, None)
 
+    def on_cleaned(self, eng, key):
+        # the success marker is gone: the job has to succeed again before its dependents may be launched
+        self.succeeded.discard(key)
+
     def on_foreign(self, eng, what, count, tok):
         fs = self.plan.get("foreign")
         led = self.ledger.setdefault(fs["token"], {})
@@ -157,7 +161,12 @@ class StateMonitor(Monitor):
                 if hasattr(uobj, "_xv_rec"):
                     if self.expected(eng, uobj, memo)[0] == "ERROR":
                         upfail = True
-            if upfail:
+            if not upfail and self.failed_ancestor(eng, obj, set()):
+                # a transitive ancestor failed in this run while every direct upstream is DONE (kept its success marker
+                # from an earlier run): the statement of C07 cancels transitive dependents, the scheduler follows direct
+                # dependencies (and, through pre-tasks, some transitive ones): both outcomes are accepted
+                res = ("EITHER", None)
+            elif upfail:
                 res = ("ERROR", 0)
             elif rec.get("adopted") is not None:
                 p = rec["adopted"]
@@ -171,6 +180,18 @@ class StateMonitor(Monitor):
                     res = ("DONE" if launches[-1].code == 0 else "ERROR", 1)
         memo[id(obj)] = res
         return res
+
+    def failed_ancestor(self, eng, obj, seen):
+        for ukey, uobj in obj._xv_rec.get("upstream_objs", []):
+            if id(uobj) in seen or not hasattr(uobj, "_xv_rec"):
+                continue
+            seen.add(id(uobj))
+            launches = uobj.__dict__.get("_xv_launches", [])
+            if launches and launches[-1].code != 0:
+                return True
+            if self.failed_ancestor(eng, uobj, seen):
+                return True
+        return False
 
     def on_terminal(self, eng, pr, rr, waiter, aborted):
         from experimaestro.scheduler.base import JobState
@@ -200,6 +221,8 @@ class StateMonitor(Monitor):
                 fut = getattr(o, "_future", None)
                 if fut is None or not fut.done():
                     V(eng, ["C06"], "job-future-unresolved", f"job {key} is {st.name} but waiting on it would hang (future not resolved)")
+                if exp == "EITHER":
+                    continue
                 if exp == "LAUNCH-MISSING":
                     props = ["C06", "C07"] if st == JobState.ERROR else ["C06"]
                     V(eng, props, "final-without-process", f"job {key} ended {st.name} without ever being launched although nothing it depends on failed")
